@@ -199,10 +199,34 @@ def r4(ctx, rep):
     # compile differently under an option and under the equal header
     resolver_fns = {f_["path"] for f_ in syn.fns if f_["crate"] == "prqlc" and "body" in f_ and "/src/sql/" in f_["file"]
                     and any(x.get("k") == "mcall" and x["m"] == "get" and x["a"] and "target" in show(x["a"][0]) for x in walk(f_["body"]))}
+    # (the signature comment names the target *option* by design - it is not part of the query; what sql::compile does with the raw option
+    # inside `if options.signature_comment { .. }`, directly or through a helper it calls there, is outside this rule, and every other use
+    # in sql::compile must be the translate_query argument)
+    sig_helpers, sig_nodes = set(), set()
+    for n in walk(c["body"]):
+        if n.get("k") == "if" and "signature_comment" in show(n["c"]):
+            for x in walk(n["t"]):
+                sig_nodes.add(id(x))
+                if x.get("k") == "call":
+                    sig_helpers.add(last_seg(show(x["f"])))
+    if bound:
+        par_c = __import__("guards").parents(c["body"])
+        stray = []
+        for x in walk(c["body"]):
+            if x.get("k") == "path" and x["p"] == bound[0] and id(x) not in sig_nodes:
+                q = par_c.get(id(x))
+                if not (q is not None and q.get("k") == "call" and last_seg(show(q["f"])) == "translate_query"):
+                    stray.append(x["l"])
+        rep.check(not stray, "raw-option-only-forwarded:compile", f"sql::compile looks at the raw target option `{bound[0]}` (line(s) {stray}) outside the signature comment: it must only be handed "
+                  "to translate_query, which resolves it against the header", file=c["file"], line=stray[0] if stray else c["l"], fn=c["path"])
     n_through = 0
     for f_ in syn.fns:
         if f_["crate"] != "prqlc" or "body" not in f_ or "/src/sql/" not in f_["file"] or f_["path"] in resolver_fns:
             continue
+        if f_["name"] in sig_helpers and f_["file"] == c["file"] and not any(
+                x.get("k") == "call" and last_seg(show(x["f"])) == f_["name"] and id(x) not in sig_nodes
+                for g_ in syn.fns if g_["crate"] == "prqlc" and "body" in g_ and "/src/sql/" in g_["file"] for x in walk(g_["body"])):
+            continue        # a text helper of the signature comment, called from nowhere else
         raw = [p_["name"] for p_ in f_.get("params", []) if isinstance(p_, dict) and re.sub(r"\s", "", p_.get("ty") or "") in ("Option<Dialect>", "Option<crate::sql::Dialect>", "Option<super::Dialect>")]
         for nm in raw:
             n_through += 1
@@ -293,9 +317,15 @@ def r7(ctx, rep):
               f"the `prql ..` header must be looked up in the module that declares the main pipeline (path = main.path); found {st}: with the main pipeline in a sub-module its own `target:` would be ignored",
               file=f["file"], line=f["l"], fn=f["path"])
     lo = syn.fn("lowering::lower_to_ir", crate="prqlc")
-    txt = show_stmts(lo["body"], maxdepth=8)
-    rep.check("root_mod.find_query_def(&main_ident)" in txt and "def.cloned().unwrap_or_default()" in txt, "def-from-main",
-              "the RQ's def must be the header found for the main pipeline (default when absent)", file=lo["file"], line=lo["l"], fn=lo["path"])
+    import alpha as _alpha
+    Alo = _alpha.Inliner(lo)
+    dv = None
+    for n in walk(lo["body"]):
+        if n.get("k") == "struct" and last_seg(n["p"]) == "RelationalQuery":
+            dv = dict(n["f"]).get("def")
+    dtxt = Alo.show(dv, strip=True).replace(" ", "") if dv is not None else None
+    rep.check(dtxt in ("root_mod.find_query_def(main_ident).cloned().unwrap_or_default()", "root_mod.find_query_def(main_ident).unwrap_or_default()"), "def-from-main",
+              f"the RQ's def must be the header found for the main pipeline (default when absent); found `{dtxt}`", file=lo["file"], line=lo["l"], fn=lo["path"])
     q = None
     for n in walk(lo["body"]):
         if n.get("k") == "struct" and last_seg(n["p"]) == "RelationalQuery":
